@@ -14,7 +14,12 @@ RULE = ("classes from the type-directed declaration generator; kwargs streams va
         "missing/extra; chains of 1..3 (quick) / 1..6 (thorough) entry points drawn from copy, deepcopy, pickle, "
         "shallow_clone_with_overrides(+valid/invalid override), from_other_class(instance | mapping, +ignore_props, "
         "+override), cast_to; oracle = Lean `wellFormed` evaluated by the driver on the dumped instance the real "
-        "code returned; non-trivial = class has >=1 constraint or nesting >= 1; distinct by sha256 of the case line")
+        "code returned; non-trivial = class has >=1 constraint or nesting >= 1; distinct by sha256 of the case line; plus an "
+        "oracle-only stream for INHERITANCE (the Lean declarations are flat): hierarchies of depth 1..3 whose class-level "
+        "settings (_additional_properties, _required, _ignore_none, immutability) are stated on the base only, through 11 entry "
+        "kinds (constructor with/without an unknown keyword, missing/None/invalid arguments, Deserializer with an extra key x "
+        "keep_undefined, shallow_clone_with_overrides / from_other_class(instance|mapping) with an extra name, assignment of a new "
+        "attribute, copy/deepcopy/clone/cast_to chain); the declaration is checked on the returned instance in Python")
 ASSUMPTIONS = [
     "trusted entry points (from_trusted_data, trust_supplied_values, direct_trusted_mapping) are excluded by the statement",
     "Deserializer as an entry point is covered by C05/C06's suites, not here",
@@ -22,22 +27,141 @@ ASSUMPTIONS = [
 ]
 
 
+# ---- inheritance (the Lean declarations are flat): class-level settings stated on a BASE only - the statement is
+# executed on the real subclasses (oracle-only cases, no model line)
+ENTRY_KINDS = ["ctor", "ctor-extra", "deser-extra", "clone-extra", "from-other-extra", "from-mapping-extra", "setattr-extra",
+               "ctor-missing", "ctor-none", "ctor-bad", "copy-chain"]
+
+
+def inherit_cases(rng, n):
+    out = []
+    for ci in range(n):
+        out.append({"suite": "inherit",
+                    "addl": rng.choice([False, False, True, None]),          # on the base only
+                    "required_on_base": rng.random() < 0.5, "ignore_none": rng.choice([None, True, False]),
+                    "immutable": rng.random() < 0.2, "depth": rng.choice([1, 2, 3]), "restate": rng.random() < 0.15,
+                    "entry": rng.choice(ENTRY_KINDS), "keep_undefined": rng.choice([True, False, None])})
+    # every entry kind x (flag off on the base) at depth 1 and 2: always run
+    for entry in ENTRY_KINDS:
+        for depth in (1, 2):
+            out.append({"suite": "inherit", "addl": False, "required_on_base": True, "ignore_none": None, "immutable": False,
+                        "depth": depth, "restate": False, "entry": entry, "keep_undefined": True})
+    return out
+
+
+def run_inherit(case):
+    import copy
+    import pickle
+    from typedpy import Structure, ImmutableStructure, Integer, String, Array, Deserializer
+    base_body = {"a": Integer(minimum=0), "tags": Array(items=String(), maxItems=2)}
+    base_body["_required"] = ["a"] if case["required_on_base"] else []
+    if case["addl"] is not None:
+        base_body["_additional_properties"] = case["addl"]
+    if case["ignore_none"] is not None:
+        base_body["_ignore_none"] = case["ignore_none"]
+    try:
+        cls = type("Base", ((ImmutableStructure if case["immutable"] else Structure),), base_body)
+        names = ["a", "tags"]
+        for d in range(case["depth"]):
+            body = {f"b{d}": String(maxLength=3), "_required": []}
+            if case["restate"] and case["addl"] is not None:
+                body["_additional_properties"] = case["addl"]
+            cls = type(f"Sub{d}", (cls,), body)
+            names.append(f"b{d}")
+    except Exception as e:
+        return {"skip": f"definition: {type(e).__name__}: {e}"[:200]}
+    addl = getattr(cls, "_additional_properties", True)
+    required = ["a"] if case["required_on_base"] else []
+    good = {"a": 1, "tags": ["x"], "b0": "ab"}
+    entry = case["entry"]
+    try:
+        if entry == "ctor":
+            x = cls(**good)
+        elif entry == "ctor-extra":
+            x = cls(**good, zz_extra=1)
+        elif entry == "ctor-missing":
+            x = cls(tags=["x"])
+        elif entry == "ctor-none":
+            x = cls(a=1, b0=None, tags=None)
+        elif entry == "ctor-bad":
+            x = cls(a=-1, b0="toolong", tags=["x", "y", "z"])
+        elif entry == "deser-extra":
+            x = Deserializer(cls).deserialize({**good, "zz_extra": 1}, keep_undefined=case["keep_undefined"])
+        elif entry == "clone-extra":
+            x = cls(**good).shallow_clone_with_overrides(zz_extra=1)
+        elif entry == "from-other-extra":
+            x = cls.from_other_class(cls(**good), zz_extra=1)
+        elif entry == "from-mapping-extra":
+            x = cls.from_other_class({**good, "zz_extra": 1})
+        elif entry == "setattr-extra":
+            x = cls(**good)
+            x.zz_extra = 1
+        elif entry == "copy-chain":
+            x = copy.deepcopy(copy.copy(cls(**good))).shallow_clone_with_overrides().cast_to(cls)
+        else:
+            raise AssertionError(entry)
+    except Exception as e:
+        return {"out": "raised", "exc": type(e).__name__, "documented_exc": isinstance(e, (TypeError, ValueError)), "msg": str(e)[:160]}
+    attrs = {k: v for k, v in x.__dict__.items() if k not in ("_instantiated", "_none_fields", "_trust_supplied_values")}
+    problems = []
+    undeclared = sorted(k for k in attrs if k not in names)
+    if undeclared and not addl:
+        problems.append(f"undeclared attribute(s) {undeclared} although additional properties are off")
+    for r in required:
+        if attrs.get(r) is None:
+            problems.append(f"required field {r} is not set")
+    if "a" in attrs and attrs["a"] is not None and not (isinstance(attrs["a"], int) and attrs["a"] >= 0):
+        problems.append(f"a = {attrs['a']!r} violates Integer(minimum=0)")
+    if attrs.get("b0") is not None and not (isinstance(attrs["b0"], str) and len(attrs["b0"]) <= 3):
+        problems.append(f"b0 = {attrs['b0']!r} violates String(maxLength=3)")
+    if attrs.get("tags") is not None and not (isinstance(attrs["tags"], list) and len(attrs["tags"]) <= 2 and all(isinstance(t, str) for t in attrs["tags"])):
+        problems.append(f"tags = {attrs['tags']!r} violates Array(items=String, maxItems=2)")
+    return {"out": "instance", "problems": problems, "inst": str(x)[:200]}
+
+
 def cases(rng, tier):
-    return S.gen_cases(rng, tier, 90 if tier == "quick" else 1200)
+    return S.gen_cases(rng, tier, 90 if tier == "quick" else 1200) + inherit_cases(rng, 150 if tier == "quick" else 3000)
 
 
 def search_cases(rng, tier):
-    return S.gen_cases(rng, "thorough", 400)
+    return S.gen_cases(rng, "thorough", 400) + inherit_cases(rng, 500)
 
 
-run_impl = S.run_impl
-line = S.line
-tags = S.tags
-nontrivial = S.nontrivial
-describe = S.describe
+def _i(case):
+    return case.get("suite") == "inherit"
+
+
+def run_impl(case):
+    return run_inherit(case) if _i(case) else S.run_impl(case)
+
+
+def line(case, impl):
+    return None if _i(case) else S.line(case, impl)
+
+
+def tags(case, impl, model):
+    if _i(case):
+        return ["stream:inherit", f"inherit:{case['entry']}:{impl.get('out', 'skipped')}"]
+    return S.tags(case, impl, model)
+
+
+def nontrivial(case):
+    return True if _i(case) else S.nontrivial(case)
+
+
+def describe(case, impl, model):
+    return {"inherit": case, "result": impl} if _i(case) else S.describe(case, impl, model)
 
 
 def judge(case, impl, model):
+    if _i(case):
+        fails = []
+        for pr in impl.get("problems", []):
+            fails.append((f"ill-formed-instance:inherited:{case['entry']}", f"{case['entry']} on a subclass (settings on the base: {json.dumps({k: case[k] for k in ('addl', 'required_on_base', 'ignore_none', 'immutable', 'depth')})}) "
+                          f"returned {impl.get('inst')}: {pr}"))
+        if impl.get("out") == "raised" and not impl.get("documented_exc"):
+            fails.append((f"error-class:inherited:{case['entry']}:{impl['exc']}", f"{case['entry']} raised {impl['exc']}: {impl.get('msg')}"))
+        return None, fails
     msg = S.correspondence(case, impl, model) or S.chain_correspondence(case, impl, model)
     fails = []
     if "unbuildable" in impl or "abstraction_mismatch" in impl:
